@@ -3,6 +3,7 @@ CONSTANTS
   Fix = {"tail", "suffix", "epoch"}
   Taints = {}
   GenMode = TRUE
+  MaxSkip = 1
   MaxOps = 3
   MaxPost = 0
   MaxRecs = 4
